@@ -27,6 +27,23 @@ Proof.
   rewrite H. destruct (astep i st) as [st'|]; [apply IH|reflexivity].
 Qed.
 
+(* the same for `for x in seq` *)
+Fixpoint aeach {S A : Type} (l : list A) (astep : A -> S -> option S) (st : S) : option S :=
+  match l with
+  | [] => Some st
+  | x :: r => match astep x st with Some st' => aeach r astep st' | None => None end
+  end.
+
+Definition sim_body_each {R S A : Type} (body : A -> S -> ctl R S) (astep : A -> S -> option S) : Prop :=
+  forall x st, body x st = match astep x st with Some st' => Next st' | None => Fail end.
+
+Lemma for_each_sim {R S A : Type} (body : A -> S -> ctl R S) astep : sim_body_each body astep ->
+  forall l st, for_each l body st = match aeach l astep st with Some st' => Next st' | None => Fail end.
+Proof.
+  intros H. induction l as [|x l IH]; intros st; cbn [for_each aeach]; [reflexivity|].
+  rewrite H. destruct (astep x st) as [st'|]; [apply IH|reflexivity].
+Qed.
+
 Ltac destr_tuple st :=
   let T := type of st in
   let T' := eval hnf in T in
@@ -48,6 +65,7 @@ Ltac sim_split :=
           | |- context [match zget ?a ?j with _ => _ end] => destruct (zget a j) eqn:?
           | |- context [match qget ?a ?j with _ => _ end] => destruct (qget a j) eqn:?
           | |- context [if ?c then _ else _] => destruct c eqn:?
+          | |- context [match ?o with None => _ | Some _ => _ end] => is_var o; destruct o
           end; cbv beta iota zeta).
 
 Ltac sim_body_tac body astep :=
